@@ -434,14 +434,19 @@ static void addStatefulFamily(const std::string & fam, bool disp, int minTier) {
 				if(ctx.samples.size() < 3) ctx.samples.push_back(cfg.name());
 				std::unordered_set<uint64_t> va, vb;
 				s.stateful = true; s.visitedA = &va; s.visitedB = &vb; s.maxSteps = 20000;
+				// a few 3-thread dispatcher configurations have tens of millions of states: a configuration is given up at 1.5 M
+				// states (reported: configs_capped, not exhaustive) so that the rest of the shard is still explored in full
+				const size_t stateCap = 1500000;
 				DfsResult r = dfs(ctx, 1 << 24, [&]() {
 					ctx.ex.choose(100000, 100000, K_OP);
 					Run<Target> run(ctx, cfg); run.stateful = true;
 					run.run();
 					maxPoints = std::max(maxPoints, sched().steps);
+					if(va.size() > stateCap) ctx.abandonSearch = true;
 				}, nullptr, std::vector<int>{(int)ci + 1});
 				s.stateful = false;
 				states += (double)va.size();
+				if(r.abandoned) { rep.exhaustive = false; rep.num["configs_capped"] += 1; continue; }
 				if(!r.complete) { rep.exhaustive = false; break; }
 				rep.num["configs_completed"] += 1;
 			}
